@@ -61,6 +61,9 @@ PARALLEL = True
 LEVEL_TEXT = ('Lean 4 theorems about executable models of _run_0D, _run_1D and of the object fields across successive run() calls (exact real arithmetic), tied to /repo by a differential check (all four arrays of single runs; exception class, results and array lengths of object histories). Proved in full for 0D and 1D: complete result or exception (one run; fresh object: every accessor raises AssertionError after a failed run); t_fr = t_nuc + t_sol; t_sol = dt * (first solidification step with frozen fraction >= 0.9), the fraction being computed from the field saved for that step; all times within the process; equal lengths of the four histories (1D: i_save_end + 1 + (i_save - 1) rows), time = dt * step, shelfTemp = programme[step], rows in step order hence time non-decreasing; every in-loop buffer write in range, IndexError exactly when the extra post-nucleation row meets a full cooling buffer (explicit exception branch, reproduced on the real code). Refuted for a REUSED object: a run failing in the solidification stage after a completed one leaves new statistics with t_sol = None beside the old arrays (state-machine theorem + concrete model witness, replayed: K6); with the proposed repair of run() (fixes/K6.diff) the clause is proved for every object history. PARTIAL with respect to the quantifier: 2D has no theorem here; covered by the predicates on real 2D runs.')
 
 
+ARRS = ("time", "shelfTemp", "temp", "iceMassFraction")
+
+
 # ---------------------------------------------------------------------------
 def run_impl(case):
     return su.run_real_cached(case)
@@ -78,6 +81,15 @@ def run_model(drv, case):
         return {"raise": rec["raise"], "stage": "init"}
     progs = su.programs(case)
     out = {"single": None, "seq": None}
+    if case.get("Nrep"):
+        # a multi-repetition study: repetition i is the single run with F_rand = the draw of seed i
+        rows = []
+        for i in range(int(case["Nrep"])):
+            r = drv.call(su.model_request(case, rec, prog=progs[0], Frand=su.recorded_frand(i), old=False,
+                                          row_stride=10 ** 9))
+            rows.append(su.decode_model(r))
+        out["table"] = rows
+        return out
     frs = [pr["Frand"] if pr.get("Frand") is not None else su.recorded_frand(0) for pr in progs]
     if len(progs) == 1:
         r = drv.call(su.model_request(case, rec, prog=progs[0], Frand=frs[0], old=True, traces=False,
@@ -104,8 +116,10 @@ def _impl_seq(impl):
     for run in impl["runs"]:
         snap = run.get("snap") or {}
         res = snap.get("results")
-        t = snap.get("time")
-        nrows = t if (isinstance(t, dict) or t is None) else len(t)
+        nrows = {}
+        for name in ARRS:
+            t = snap.get(name)
+            nrows[name] = t if (isinstance(t, dict) or t is None) else len(t)
         out.append({"raise": run.get("raise"), "results": res, "nrows": nrows})
     return out
 
@@ -124,9 +138,30 @@ def _cmp_seq(a, b):
             for key in ry:
                 if not close(rx.get(key), ry[key]):
                     dis.append(f"run {k}: results[{key}] impl {rx.get(key)!r} vs model {ry[key]!r}")
-        if x["nrows"] != y["nrows"]:
-            dis.append(f"run {k}: history rows impl {x['nrows']} vs model {y['nrows']}")
+        for name, v in x["nrows"].items():
+            if v != y["nrows"]:
+                dis.append(f"run {k}: accessor {name} impl {v} vs model {y['nrows']}")
     return dis
+
+
+def _cmp_table(case, impl, model):
+    """results table of an Nrep > 1 study, column by column against the single-run model of every seed"""
+    dis = []
+    run = impl["runs"][0]
+    rows = model["table"]
+    exp_raise = next((m["raise"] for m in rows if m["raise"]), None)
+    if (run["raise"] or None) != exp_raise:
+        return [f"exception: impl {run['raise']} vs model {exp_raise}"]
+    if run["raise"]:
+        return dis
+    tab = run["snap"].get("results_table")
+    if not isinstance(tab, list) or len(tab) != len(rows):
+        return [f"results table: impl {tab if not isinstance(tab, list) else len(tab)} rows vs model {len(rows)}"]
+    for i, (a, m) in enumerate(zip(tab, rows)):
+        for key, v in m["stats"].items():
+            if not close(a.get(key), v):
+                dis.append(f"repetition {i}: column {key} impl {a.get(key)!r} vs model {v!r}")
+    return dis[:6]
 
 
 def compare(case, impl, model):
@@ -135,6 +170,8 @@ def compare(case, impl, model):
         return dis
     if impl.get("raise"):
         return [] if impl["raise"] == model.get("raise") else [f"init exception: impl {impl['raise']}"]
+    if case.get("Nrep"):
+        return _cmp_table(case, impl, model)
     a = _impl_seq(impl)
     # /repo carries the repair of K6 (8f62f48): run() clears the outputs of an earlier run.
     # The model of that run() is SnowObj.runFixed ("seq_fixed"); the pre-repair variant
@@ -186,9 +223,6 @@ def compare(case, impl, model):
 # ---------------------------------------------------------------------------
 # the clauses on the implementation's output
 # ---------------------------------------------------------------------------
-ARRS = ("time", "shelfTemp", "temp", "iceMassFraction")
-
-
 def _partial(snap):
     """what the accessors expose: 'none' (all raise), 'complete', or a description of partial data"""
     res = snap["results"]
@@ -282,6 +316,42 @@ def _check_complete_run(case, prog, impl, run, site, out):
                                detail=f"frozen fraction at the t_sol step {i_sol} is {sig[at[0]]} < 0.9"))
 
 
+def _check_table(case, prog, impl, run, site, out):
+    """Nrep > 1: every row of the results table, column by column"""
+    tab = run["snap"].get("results_table")
+    if tab is None:
+        return
+    if not isinstance(tab, list) or len(tab) != int(case.get("Nrep") or 1):
+        out.append(Failure(clause="complete_or_raise", key=f"results_table|{site}|rows",
+                           detail=f"results table of an Nrep={case.get('Nrep')} study: {tab if not isinstance(tab, list) else len(tab)}"))
+        return
+    dt = _dt(case, impl["const"])
+    lim = (su.n_steps(prog["t_tot"], dt) - 1) * dt / 60.0
+    for i, row in enumerate(tab):
+        if any(v is None for v in row.values()):
+            out.append(Failure(clause="complete_or_raise", key=f"results_table|{site}|incomplete-row",
+                               detail=f"repetition {i}: {row}"))
+            continue
+        if not close(row["t_fr"], row["t_nuc"] + row["t_sol"]):
+            out.append(Failure(clause="tfr_eq", key=f"tfr_eq|{site}|Nrep>1",
+                               detail=f"repetition {i}: t_fr {row['t_fr']} != t_nuc {row['t_nuc']} + t_sol {row['t_sol']}"))
+            break
+        if not (0 <= row["t_nuc"] <= row["t_fr"] * (1 + 1e-12) <= lim * (1 + 1e-9) and row["t_sol"] >= 0):
+            out.append(Failure(clause="times_within", key=f"times_within|{site}|Nrep>1", detail=f"repetition {i}: {row}"))
+            break
+    # the arrays left on the object are those of the LAST repetition: its row must fit them
+    last = dict(run)
+    last["snap"] = dict(run["snap"])
+    last["snap"]["results"] = tab[-1]
+    if all(v is not None for v in tab[-1].values()):
+        sub = []
+        _check_complete_run(case, prog, impl, last, site, sub)
+        for f in sub:
+            f["key"] += "|last-repetition"
+            f["detail"] = "last repetition of the study vs the arrays on the object: " + f["detail"]
+        out.extend(sub)
+
+
 def predicates(case, impl):
     out = []
     if impl.get("raise") or not impl.get("runs"):
@@ -300,7 +370,15 @@ def predicates(case, impl):
                                    detail=f"run {k} raises {run['raise']}"))
             res = run["snap"]["results"]
             partial = isinstance(res, dict) and "raise" not in res and any(v is None for v in res.values())
-            # (complete data of an EARLIER run still being shown is stale state, not partial data: C14)
+            # run() clears the outputs of an earlier run first, so after a run that raised EVERY accessor
+            # must raise: anything readable is data of an incomplete run
+            readable = [nm for nm in ("results",) + ARRS
+                        if not (isinstance(run["snap"][nm], dict) and "raise" in run["snap"][nm])]
+            if readable and not partial:
+                out.append(Failure(clause="complete_or_raise",
+                                   key=f"complete_or_raise|{cls}|readable-after-failed-run|{site}",
+                                   detail=f"run {k} raised {run['raise']} but these accessors still return data: "
+                                          f"{readable} (all others raise AssertionError)"))
             if state != "none" and partial:
                 what = "partial-results"
                 out.append(Failure(clause="complete_or_raise", key=f"complete_or_raise|{cls}|{what}|{site}",
@@ -311,6 +389,9 @@ def predicates(case, impl):
             if state != "complete":
                 out.append(Failure(clause="complete_or_raise", key=f"complete_or_raise|{cls}|incomplete|{site}",
                                    detail=f"run {k} returned but results/arrays are incomplete: {run['snap']['results']}"))
+            elif case.get("Nrep"):
+                # `.results` is the table of all repetitions, the arrays are those of the last one
+                _check_table(case, prog, impl, run, site, out)
             else:
                 _check_complete_run(case, prog, impl, run, site, out)
             had_complete = True
@@ -401,7 +482,36 @@ def cases_full_buffer():
         return
 
 
+def cases_reprogram():
+    """ONE object, two programmes of the SAME length (same t_tot, same dt): the second run must simulate and
+    report the second programme"""
+    p0 = dict(dim="0D", config="shelf", k_s0=100, cnTemp=None, Frand=None, t_tot=3600, stop=-50)
+    a0 = dict(p0, start=20, rate=0.1, holds=None)
+    b0 = dict(p0, start=12.5, rate=0.25, holds=[[-5, 300]])
+    h = 0.03
+    dt = su.dt_1d_default(h)
+    p1 = dict(dim="1D", config="shelf", height=h, k_s0=2000, cnTemp=None, Frand=0.5, t_tot=7900 * dt, stop=-50)
+    a1 = dict(p1, start=20, rate=0.5, holds=None)
+    b1 = dict(p1, start=10, rate=0.05, holds=None)
+    out = []
+    for a, b in ((a0, b0), (b1, a1)):
+        c = dict(a)
+        c["runs"] = [{k: b[k] for k in ("t_tot", "start", "stop", "rate", "holds", "cnTemp", "Frand")}]
+        c["kind"] = "reuse:new-programme-same-t_tot"
+        out.append(c)
+    return out
+
+
+def cases_nrep():
+    """multi-repetition 0D studies (sequential): the results table is checked row by row, column by column"""
+    p0 = dict(dim="0D", config="shelf", k_s0=100, cnTemp=None, Frand=None, stop=-50, holds=None, how="sequential")
+    return [dict(p0, t_tot=3000, start=20, rate=0.1, Nrep=3, kind="Nrep=3"),
+            dict(p0, t_tot=2500, start=10, rate=0.25, Nrep=2, kind="Nrep=2")]
+
+
 def cases(rng, tier):
+    for c in cases_reprogram() + cases_nrep():
+        yield c
     for c in cases_full_buffer():
         yield c
     # the K6 input of DESIGN section 7 first
@@ -414,7 +524,9 @@ def cases(rng, tier):
         c = dict(c)
         c["kind"] = "c08"
         yield c
-    ns, nsh = (3, 8) if tier == "quick" else (12, 40)
+    ns, nsh = (1, 10) if tier == "quick" else (12, 40)
+    for c in su.stride_cases():
+        yield dict(c)
     for _ in range(ns):
         yield case_stride(rng)
     for i in range(nsh):
